@@ -462,6 +462,67 @@ func init() {
 		}
 		return out + "|S=" + s + "|G=" + joinOr(c13SortNum(adm), ",") + "|P=" + c13Sorted(h.Peerstore().Peers())
 	}
+	// conn <A's topology> <B's topology> <broadcast|raw>  => delivered:<attributed sender> | refused        (TEST of the libp2p assumptions)
+	//   Two REAL libp2p hosts built by p2p.NewHost on loopback: A = peer 0 (gater over A's topology), B = peer 1 (gater over
+	//   B's topology). A sends one message to B — through the real Broadcast, or `raw` by writing a line that smuggles
+	//   "From":<peer 7> straight into a stream. B's subscriber reports whom the message was attributed to.
+	//   A refusal is observed as "nothing delivered within 1.5 s" (can only hide a violation, never invent one).
+	ops["C13.conn"] = func(a []string) string {
+		ta, tb := c13Topo(a[0]+"/1"), c13Topo(a[1]+"/1")
+		hB, err := p2p.NewHost(c13Privs[1], tb, p2p.NewConnectionGate(tb), 0)
+		if err != nil {
+			return "hosterr"
+		}
+		defer hB.Close()
+		hA, err := p2p.NewHost(c13Privs[0], ta, p2p.NewConnectionGate(ta), 0)
+		if err != nil {
+			return "hosterr"
+		}
+		defer hA.Close()
+		// the topology's address of B is a placeholder; give A the address B really listens on
+		hA.Peerstore().ClearAddrs(c13IDs[1])
+		var loop []ma.Multiaddr
+		for _, m := range hB.Addrs() {
+			if strings.HasPrefix(m.String(), "/ip4/127.0.0.1/tcp/") {
+				loop = append(loop, m)
+			}
+		}
+		if len(loop) == 0 {
+			return "noaddr"
+		}
+		hA.Peerstore().AddAddrs(c13IDs[1], loop[:1], peerstore.PermanentAddrTTL)
+		cA := p2p.NewCommunication(hA, "p2p/sygma")
+		cB := p2p.NewCommunication(hB, "p2p/sygma")
+		ch := make(chan *comm.WrappedMessage, 4)
+		cB.Subscribe("s-conn", comm.TssKeySignMsg, ch)
+		expect := ta.IsAllowedPeer(c13IDs[1]) && tb.IsAllowedPeer(c13IDs[0])
+		switch a[2] {
+		case "broadcast":
+			_ = cA.Broadcast(peer.IDSlice{c13IDs[1]}, []byte{1, 2, 3}, comm.TssKeySignMsg, "s-conn")
+		case "raw":
+			ctx, cancel := context.WithTimeout(context.Background(), 10*time.Second)
+			defer cancel()
+			if err := hA.Connect(ctx, peer.AddrInfo{ID: c13IDs[1], Addrs: loop[:1]}); err == nil {
+				if st, err := hA.NewStream(ctx, c13IDs[1], "p2p/sygma"); err == nil {
+					other, _ := json.Marshal(c13IDs[7])
+					_, _ = st.Write([]byte(`{"message_type":1,"message_id":"s-conn","payload":"AQID","From":` + string(other) + `,"from":` + string(other) + "}\n"))
+					defer st.Close()
+				}
+			}
+		default:
+			panic("via")
+		}
+		wait := 1500 * time.Millisecond
+		if expect {
+			wait = 15 * time.Second
+		}
+		select {
+		case m := <-ch:
+			return "delivered:" + c13Idx(m.From)
+		case <-time.After(wait):
+			return "refused"
+		}
+	}
 	gens["C13"] = genC13
 }
 
@@ -542,6 +603,19 @@ func genC13(g *G) {
 			ls = append(ls, k+":"+itoa(g.Intn(13))+":"+g.Pick(sess)+":"+hx(g.Bytes(g.Intn(20)))+":"+g.Pick(smug))
 		}
 		g.Emit("attr", itoa(g.Intn(c13N)), strings.Join(ls, ";"))
+	}
+	// 3b. TEST: two real libp2p hosts (A = peer 0, B = peer 1); every combination of "B in A's topology" × "A in B's topology"
+	for rep := 0; rep < g.Count(1, 12); rep++ {
+		for _, ta := range []string{"0,1,2", "0,2", "1", "-"} {
+			for _, tb := range []string{"0,1,3", "1,3"} {
+				for _, via := range []string{"broadcast", "raw"} {
+					if !g.Thorough() && (ta == "-" || (ta == "1" && via == "raw")) {
+						continue
+					}
+					g.Emit("conn", ta, tb, via)
+				}
+			}
+		}
 	}
 	// 4. refresh: body variants × announced-hash variants × event lists × store outcome
 	thrs := []string{"1", "2", "3", "0", "-1", "0x2", "abc", "", "1_0", "9223372036854775807", "9223372036854775808"}
